@@ -12,3 +12,4 @@ pub mod pratt;
 pub mod tt;
 pub mod jsonc;
 pub mod reader;
+pub mod frontend;
